@@ -163,13 +163,23 @@ func EnumerateFaults(p *gen.Program) []Fault {
 func genConfig(ch *kernel.Chooser, big bool) gen.Config {
 	cfg := gen.Config{MaxTokens: 24 + ch.Choose(24), MaxStmts: 1 + ch.Choose(4), MaxDepth: 2 + ch.Choose(3), MaxNest: 1 + ch.Choose(3),
 		Comments: ch.Bool(1, 2), Multibyte: ch.Bool(1, 3), FuncHeavy: ch.Bool(1, 4)}
+	if big && ch.Bool(1, 4) {
+		// thorough tier: deeper bounds for a quarter of the programs
+		cfg.MaxTokens = 48 + ch.Choose(100)
+		cfg.MaxStmts = 1 + ch.Choose(8)
+		cfg.MaxDepth = 2 + ch.Choose(6)
+		cfg.MaxNest = 1 + ch.Choose(6)
+		if ch.Bool(1, 6) {
+			cfg.DeepNest = 6 + ch.Choose(40)
+		}
+	}
 	return cfg
 }
 
 // validProgram generates a program and validates the generator's ground truth
 // against xjs's plain lexer and the references; invalid ones are discarded.
 func (e *Engine) validProgram(ch *kernel.Chooser, st *kernel.Stats) *gen.Program {
-	p := gen.Generate(ch, genConfig(ch, false))
+	p := gen.Generate(ch, genConfig(ch, e.tier == "thorough"))
 	toks, pan := xutil.LexAll(lexer.NewBuilder(), p.Text, len(p.Text)+8)
 	if pan != nil || len(toks) != len(p.Toks)+1 {
 		st.Inc("discarded.lexer_desync")
@@ -859,7 +869,19 @@ func (e *Engine) runC11(ch *kernel.Chooser, st *kernel.Stats) kernel.RunResult {
 		}
 		base = p.Text
 		texts = append(texts, Fault{Kind: "none", Text: base, Ctx: "valid"})
-		texts = append(texts, EnumerateFaults(p)...)
+		enum := EnumerateFaults(p)
+		if len(enum) > 1200 {
+			// very large programs (thorough tier): a seeded sample of the enumerated positions
+			step := len(enum)/1200 + 1
+			off := ch.Choose(step)
+			var sampled []Fault
+			for i := off; i < len(enum); i += step {
+				sampled = append(sampled, enum[i])
+			}
+			enum = sampled
+			st.Inc("c11.large_program_fault_positions_sampled")
+		}
+		texts = append(texts, enum...)
 		nb := 24 + ch.Choose(24)
 		for i := 0; i < nb; i++ {
 			texts = append(texts, byteFault(ch, base))
